@@ -39,6 +39,23 @@ pub struct TraitFnAnalyzer<'s> {
 }
 
 impl TraitFnAnalyzer<'_> {
+    /// Like `analyze`, but mirrors the `#[cfg]` attributes of the fn,
+    /// so that a disabled fn does not leave a dangling trait method behind.
+    pub fn analyze_with_cfg_attrs(
+        self,
+        input_sig: InputSig<'_>,
+        fn_attrs: &[syn::Attribute],
+        analyzer: &mut GenericsAnalyzer,
+    ) -> syn::Result<TraitFn> {
+        let mut trait_fn = self.analyze(input_sig, analyzer)?;
+        trait_fn.attrs = fn_attrs
+            .iter()
+            .filter(|attr| attr.path().is_ident("cfg"))
+            .cloned()
+            .collect();
+        Ok(trait_fn)
+    }
+
     pub fn analyze(
         self,
         input_sig: InputSig<'_>,
